@@ -78,37 +78,37 @@ package vm
 //@ func (*EVM).Call
 //@   props C16
 //@   requires evm != nil && caller != nil && value != nil
-//@   ensures leftOverGas <= gas
-//@   ensures old(evm.depth) > int(params.CallCreateDepth) && !(old(evm.vmConfig.NoRecursion) && old(evm.depth) > 0) ==> err == ErrDepth && leftOverGas == gas
+//@   ensures result1 <= gas
+//@   ensures old(evm.depth) > int(params.CallCreateDepth) && !(old(evm.vmConfig.NoRecursion) && old(evm.depth) > 0) ==> result2 == ErrDepth && result1 == gas
 //@   assert @call run#0: evm.depth <= int(params.CallCreateDepth)
-//@   ensures err != nil && err != ErrDepth && err != ErrInsufficientBalance && err != ErrContractCodeLoadFail ==> gh("lastRevert", evm.am) == snapshot
+//@   ensures result2 != nil && result2 != ErrDepth && result2 != ErrInsufficientBalance && result2 != ErrContractCodeLoadFail ==> gh("lastRevert", evm.am) == snapshot
 //@   ensures evm.interpreter == old(evm.interpreter) && evm.interpreter.readOnly == old(evm.interpreter.readOnly)
 
 //@ func (*EVM).StaticCall
 //@   props C16
 //@   requires evm != nil && evm.interpreter != nil && caller != nil
-//@   ensures leftOverGas <= gas
-//@   ensures old(evm.depth) > int(params.CallCreateDepth) && !(old(evm.vmConfig.NoRecursion) && old(evm.depth) > 0) ==> err == ErrDepth && leftOverGas == gas
+//@   ensures result1 <= gas
+//@   ensures old(evm.depth) > int(params.CallCreateDepth) && !(old(evm.vmConfig.NoRecursion) && old(evm.depth) > 0) ==> result2 == ErrDepth && result1 == gas
 //@   assert @call run#0: evm.depth <= int(params.CallCreateDepth) && evm.interpreter.readOnly
-//@   ensures err != nil && err != ErrDepth && err != ErrContractCodeLoadFail ==> gh("lastRevert", evm.am) == snapshot
+//@   ensures result2 != nil && result2 != ErrDepth && result2 != ErrContractCodeLoadFail ==> gh("lastRevert", evm.am) == snapshot
 //@   ensures evm.interpreter == old(evm.interpreter) && evm.interpreter.readOnly == old(evm.interpreter.readOnly)
 
 //@ func (*EVM).CallCode
 //@   props C16
 //@   requires evm != nil && caller != nil && value != nil
-//@   ensures leftOverGas <= gas
-//@   ensures old(evm.depth) > int(params.CallCreateDepth) && !(old(evm.vmConfig.NoRecursion) && old(evm.depth) > 0) ==> err == ErrDepth && leftOverGas == gas
+//@   ensures result1 <= gas
+//@   ensures old(evm.depth) > int(params.CallCreateDepth) && !(old(evm.vmConfig.NoRecursion) && old(evm.depth) > 0) ==> result2 == ErrDepth && result1 == gas
 //@   assert @call run#0: evm.depth <= int(params.CallCreateDepth)
-//@   ensures err != nil && err != ErrDepth && err != ErrInsufficientBalance && err != ErrContractCodeLoadFail ==> gh("lastRevert", evm.am) == snapshot
+//@   ensures result2 != nil && result2 != ErrDepth && result2 != ErrInsufficientBalance && result2 != ErrContractCodeLoadFail ==> gh("lastRevert", evm.am) == snapshot
 //@   ensures evm.interpreter == old(evm.interpreter) && evm.interpreter.readOnly == old(evm.interpreter.readOnly)
 
 //@ func (*EVM).DelegateCall
 //@   props C16
 //@   requires evm != nil && caller != nil
-//@   ensures leftOverGas <= gas
-//@   ensures old(evm.depth) > int(params.CallCreateDepth) && !(old(evm.vmConfig.NoRecursion) && old(evm.depth) > 0) ==> err == ErrDepth && leftOverGas == gas
+//@   ensures result1 <= gas
+//@   ensures old(evm.depth) > int(params.CallCreateDepth) && !(old(evm.vmConfig.NoRecursion) && old(evm.depth) > 0) ==> result2 == ErrDepth && result1 == gas
 //@   assert @call run#0: evm.depth <= int(params.CallCreateDepth)
-//@   ensures err != nil && err != ErrDepth && err != ErrContractCodeLoadFail ==> gh("lastRevert", evm.am) == snapshot
+//@   ensures result2 != nil && result2 != ErrDepth && result2 != ErrContractCodeLoadFail ==> gh("lastRevert", evm.am) == snapshot
 
 // ---------------------------------------------------------------------------------------------------------------------
 // C16, "never uses more gas than supplied", the pairing between the gas table and the call instructions.  The interpreter charges
